@@ -182,8 +182,34 @@ def r185(repo, ctx):
     ctx.check(ok, 'R18.5', GG, 'GrainGrowthModel.constrainedGrowth', c, 'drag band = growth rate +/- alpha*M*gbe*z: the same prefactor as the growth law',
               f'the Zener drag does not carry the prefactor of the growth law ({ {k: v[1] for k, v in res.items()} } vs {pref}): a drag that exceeds the driving pressure no longer freezes the structure',
               construct='constrainedGrowth: upper/lower')
-    txt = U.src(c).replace(' ', '')
-    ok = 'growIndices=lower>0' in txt and 'dissolveIndices=upper<0' in txt and 'cG=np.zeros(len(' in txt and 'cG[growIndices]=lower[growIndices]' in txt and 'cG[dissolveIndices]=upper[dissolveIndices]' in txt
+    # selection: result = zeros; result[lower > 0] = lower[lower > 0]; result[upper < 0] = upper[upper < 0]; nothing else
+    rets_c = [r for r in ast.walk(c) if isinstance(r, ast.Return)]
+    ok = False
+    if len(rets_c) == 1 and isinstance(rets_c[0].value, ast.Name):
+        R = rets_c[0].value.id
+        init = [s_ for s_ in ast.walk(c) if isinstance(s_, ast.Assign) and any(isinstance(t, ast.Name) and t.id == R for t in s_.targets)]
+        ok_init = len(init) == 1 and isinstance(init[0].value, ast.Call) and U.call_name(init[0].value) in ('np.zeros', 'np.zeros_like')
+        stores = [s_ for s_ in ast.walk(c) if isinstance(s_, (ast.Assign, ast.AugAssign))
+                  and any(isinstance(t, ast.Subscript) and isinstance(t.value, ast.Name) and t.value.id == R for t in U.flat_targets(s_))]
+
+        def mask_of(e):
+            e = defs.get(e.id, e) if isinstance(e, ast.Name) and e.id not in ('upper', 'lower') else e
+            if isinstance(e, ast.Compare) and len(e.ops) == 1 and isinstance(e.left, ast.Name) and U.is_const(e.comparators[0], 0):
+                return (e.left.id, type(e.ops[0]).__name__)
+            return None
+        got = set()
+        clean = True
+        for s_ in stores:
+            if not isinstance(s_, ast.Assign) or len(s_.targets) != 1:
+                clean = False
+                continue
+            m1 = mask_of(s_.targets[0].slice)
+            v = s_.value
+            if isinstance(v, ast.Subscript) and isinstance(v.value, ast.Name) and mask_of(v.slice) == m1 and m1 is not None and v.value.id == m1[0]:
+                got.add(m1)
+            else:
+                clean = False
+        ok = ok_init and clean and got == {('lower', 'Gt'), ('upper', 'Lt')} and len(stores) == 2
     ctx.check(ok, 'R18.5', GG, 'GrainGrowthModel.constrainedGrowth', c, 'grains grow only with the reduced rate, shrink only with the reduced rate, and are frozen inside the drag band',
               'the constrained growth rate is not (lower where lower > 0, upper where upper < 0, else 0): drag can reverse or accelerate a boundary', construct='constrainedGrowth: selection')
     gd = repo.func(GG, 'GrainGrowthModel.getdXdt')
